@@ -90,7 +90,12 @@ pub fn replay(args: &[String]) {
                 n_frag += 1;
             } else {
                 n_ess += 1;
-                let e = f("mn") * f("vn") / (2.0 * f("out") - f("vn"));
+                // long arrays carry the clamped pair sums individually (their sum may exceed TLC's 31 bits)
+                let out_sum: f64 = match c.get("pairs") {
+                    Some(p) => p.as_array().unwrap().iter().map(|x| x.as_i64().unwrap() as f64).sum(),
+                    None => f("out"),
+                };
+                let e = f("mn") * f("vn") / (2.0 * out_sum - f("vn"));
                 let x = es[v.p_idx] as f64;
                 let etol = if v.name == "far" { 3e-2 } else { tol * 4.0 };
                 if !close(x, e) && (x - e).abs() > etol * e.abs() && ess_bad.len() < 20 {
